@@ -67,7 +67,7 @@ def main():
         dst = os.path.join(VERIF, "seeded", sid)
         os.makedirs(dst, exist_ok=True)
         for fn in os.listdir(src):
-            if os.path.isfile(os.path.join(src, fn)) and os.path.getsize(os.path.join(src, fn)) < 200000:
+            if os.path.abspath(src) != os.path.abspath(dst) and os.path.isfile(os.path.join(src, fn)) and os.path.getsize(os.path.join(src, fn)) < 200000:
                 shutil.copy(os.path.join(src, fn), os.path.join(dst, fn))
         meta["status"] = "confirmed" if rc0 == 0 and rc1 != 0 else "demo-not-confirmed"
         meta["caught_by"] = [p for p, r in meta["checks"].items() if r["exit"] == 1]
